@@ -46,6 +46,8 @@ STRENGTHENED = """Checks strengthened because a seeded change was missed (genera
 * **C06** `C06-stop-ends-dispatcher-start-revives` - family "slow handler across reconnect" (a handler that is still busy while
   the link drops and comes back); a case no longer ends when the link is down, and what the peer sends on the final link must
   all be delivered (in order), not only "at most once".
+* **C08** `C08-s6f12-early-ack-then-abort` - a third of the well-formed bodies fill every open list of the catalogue structure
+  with 1 or 2 members (before: the minimal tree, every open list empty, so an S6F11 never carried a report).
 
 Sibling catches (a change to one property's anchored code seen by another check as well): `C20-report-values-shared-across-reports`
 by C12; `C05-source-check-outside-lock` by C18; the reversal of fix d663f2e by C05 and C09.
@@ -67,7 +69,7 @@ def main():
         strengthened += bool(v.get("check_strengthened"))
     body = f"""### 8.2 Independently seeded changes (`/verif/seeded/<name>/`)
 
-{len(rows)} changes (six batches: 12 + 11 + 12 + 8 + 12 + 10) were written by fresh sub-agents that saw only the text of one property and a
+{len(rows)} changes (seven batches: 12 + 11 + 12 + 8 + 12 + 10 + 10) were written by fresh sub-agents that saw only the text of one property and a
 scratch worktree of /repo (nothing from /verif). Each has `patch.diff`, `demo.py` (fails with the change, passes without)
 and `meta.json` (what it needs to manifest, why the suite does not notice, what was run). Every one was confirmed here in a
 scratch worktree of /repo HEAD (`python -m vf.selftest.seeded confirm <name>`: demo exit 0 without / exit 1 with the patch,
